@@ -21,6 +21,9 @@ pub enum SK {
     Q1Loop(u8),
     /// QoS 1 with a caller-chosen packet id
     Q1Id(u16),
+    /// QoS 1 publish whose properties add up to exactly 127 bytes (v5: a 124-byte Content Type; v3: plain publish): the
+    /// Property Length prefix sits on a variable-byte-integer boundary
+    Q1Prop127,
     /// QoS 1 / QoS 2 send whose future is polled once (the PUBLISH is written) and then dropped: the application gave up
     /// waiting (timeout, select); the peer's acknowledgement arrives for a send nobody awaits any more
     Q1Abandon,
@@ -167,6 +170,13 @@ async fn run_sender_v5(sink: ntex_mqtt::v5::MqttSink, kind: SK, j: usize, app: A
                 })
                 .send_at_least_once(by(&[tag(j)]))
                 .await;
+            push(match &r {
+                Ok(a) => ackstr(a),
+                Err(e) => format!("err:{e:?}"),
+            });
+        }
+        SK::Q1Prop127 => {
+            let r = sink.publish(bs("t")).properties(|p| p.content_type = Some(bs(&"c".repeat(124)))).send_at_least_once(by(&[tag(j)])).await;
             push(match &r {
                 Ok(a) => ackstr(a),
                 Err(e) => format!("err:{e:?}"),
@@ -410,6 +420,13 @@ async fn run_sender_v3(sink: ntex_mqtt::v3::MqttSink, kind: SK, j: usize, app: A
         SK::Q0Fill => {
             let r = sink.publish(bs("t")).send_at_most_once(by(&[tag(j); 24]));
             push(match r {
+                Ok(()) => "ok".into(),
+                Err(e) => format!("err:{e:?}"),
+            });
+        }
+        SK::Q1Prop127 => {
+            let r = sink.publish(bs("t")).send_at_least_once(by(&[tag(j)])).await;
+            push(match &r {
                 Ok(()) => "ok".into(),
                 Err(e) => format!("err:{e:?}"),
             });
